@@ -7,6 +7,7 @@ from typing import List
 
 from harness.lib.core import VERIF, Ctx, lean_lock, load_findings, run_driver, shrink_ops, sig_matches
 from harness.extract import link as x_link
+from harness.extract import link_body as x_body
 from harness.rigs import link as rig
 
 MANIFEST = {
@@ -60,7 +61,7 @@ MANIFEST = {
                  "regenerated tables and inventories and a differential rig",
     "design_ref": "5/C18",
 }
-MODULES = ["PrimaiteModel.Props.C18", "PrimaiteModel.Props.C18Accept", "PrimaiteModel.Props.C18Float", "PrimaiteModel.Props.C18Step", "PrimaiteModel.Props.C18Chan"]
+MODULES = ["PrimaiteModel.Props.C18", "PrimaiteModel.Props.C18Accept", "PrimaiteModel.Props.C18Float", "PrimaiteModel.Props.C18Step", "PrimaiteModel.Props.C18Chan", "PrimaiteModel.Props.C18Body"]
 EXE = "drv_c18"
 SHRINK_PER_SIG = 2      # failing traces minimised per distinct presumptive signature
 SHRINK_WALL = 40.0      # seconds of minimisation after which further failing traces are reported unminimised
@@ -110,6 +111,7 @@ def replay(rec: dict) -> bool:
 def run(ctx: Ctx):
     with lean_lock():
         ctx.extract("Link", x_link.emit)
+        ctx.extract("LinkBody", x_body.emit)
         ctx.prove(MODULES, exes=[EXE], clean=False, leanchecker=ctx.thorough)
     ctx.oblige("rig unit = Gen.Link.bytesPerMbit", "extractor", rig.UNIT == x_link._bytes_per_mbit(), f"{rig.UNIT}")
     # the extractor's inventory of interface classes (pure ast) against the classes that exist at run time
